@@ -1,5 +1,7 @@
 package serialization
 
+import "github.com/cloudwego/eino/schema"
+
 // C12: checkpoint serialisation round-trips every supported value or fails loudly.
 
 type c12Named int
@@ -723,5 +725,45 @@ func VerifC12UnregisteredShapes() {
 	case 3:
 		g, ok := got.(c12EmbP)
 		vassert(ok && g.N == 3 && g.c12helper != nil && len(g.History) == 1 && g.History[0] == "h", "a struct embedding an unexported struct by pointer that was accepted comes back with its promoted fields")
+	}
+}
+
+// eino's own message type is "already registered": a message that uses its multi-modal parts or carries log
+// probabilities round-trips like any other (every type reachable from schema.Message is known to the serialiser)
+func VerifC12BuiltinMessage() {
+	x := vsymStr("x")
+	m := &schema.Message{Role: schema.Assistant, Content: x}
+	switch vchoose("shape", 4) {
+	case 0:
+		m.MultiContent = []schema.ChatMessagePart{{Type: schema.ChatMessagePartTypeText, Text: x}}
+	case 1:
+		m.MultiContent = []schema.ChatMessagePart{{Type: schema.ChatMessagePartTypeImageURL, ImageURL: &schema.ChatMessageImageURL{URL: x, Detail: schema.ImageURLDetailHigh}}}
+	case 2:
+		m.ResponseMeta = &schema.ResponseMeta{FinishReason: "stop", LogProbs: &schema.LogProbs{Content: []schema.LogProb{{Token: x, LogProb: 0, TopLogProbs: []schema.TopLogProb{{Token: "t"}}}}}}
+	case 3:
+		m.ResponseMeta = &schema.ResponseMeta{LogProbs: &schema.LogProbs{}}
+	}
+	r, err := c12Round(m)
+	vassert(err == nil, "a message built from eino's own types is serialised")
+	if err != nil {
+		return
+	}
+	g, ok := r.(*schema.Message)
+	vassert(ok && g != nil && g.Content == x && g.Role == schema.Assistant, "and comes back as a message with its content")
+	if !ok || g == nil {
+		return
+	}
+	vassert(len(g.MultiContent) == len(m.MultiContent), "with its multi-modal parts")
+	if len(m.MultiContent) == 1 && len(g.MultiContent) == 1 {
+		vassert(g.MultiContent[0].Type == m.MultiContent[0].Type && g.MultiContent[0].Text == m.MultiContent[0].Text, "part type and text")
+		if m.MultiContent[0].ImageURL != nil {
+			vassert(g.MultiContent[0].ImageURL != nil && g.MultiContent[0].ImageURL.URL == x && g.MultiContent[0].ImageURL.Detail == schema.ImageURLDetailHigh, "image part")
+		}
+	}
+	if m.ResponseMeta != nil && m.ResponseMeta.LogProbs != nil {
+		vassert(g.ResponseMeta != nil && g.ResponseMeta.LogProbs != nil && len(g.ResponseMeta.LogProbs.Content) == len(m.ResponseMeta.LogProbs.Content), "with its log probabilities")
+		if len(m.ResponseMeta.LogProbs.Content) == 1 && g.ResponseMeta != nil && g.ResponseMeta.LogProbs != nil && len(g.ResponseMeta.LogProbs.Content) == 1 {
+			vassert(g.ResponseMeta.LogProbs.Content[0].Token == x && len(g.ResponseMeta.LogProbs.Content[0].TopLogProbs) == 1, "token and top alternatives")
+		}
 	}
 }
